@@ -29,6 +29,7 @@ def main(repo, out_dir):
     try:
         for m in [m for m in sys.modules if m == 'pbhhg_py' or m.startswith('pbhhg_py.')]:
             del sys.modules[m]
+        import pbhhg_py.main                      # the interpreter's own entry point first: its import order is the one that must work
         from pbhhg_py import interpret, error, parse, abstract_syntax as AS
         from pbhhg_py.builtins import io as uio, module as umod
         from pbhhg_py.modules import byte
